@@ -83,6 +83,9 @@ pub enum CommitKind {
     Rename,
     Describe,
     Relays,
+    /// the relay list becomes EMPTY (only used where no member is added afterwards: a welcome of a
+    /// group without relays is refused by the joiner - known C15 finding)
+    RelaysNone,
     RotateNid,
     Image,
     Admins,
@@ -189,17 +192,24 @@ impl World {
             }
             CommitKind::Rename => {
                 what = format!("rename n{arg}");
-                with_mdk!(self.clients[m].mdk, x => x.update_group_data(&gid, NostrGroupDataUpdate::new().name(format!("name-{arg}"))))
+                // one name in eleven is the empty string (boundary value of every text field)
+                let name = if arg % 11 == 0 { String::new() } else { format!("name-{arg}") };
+                with_mdk!(self.clients[m].mdk, x => x.update_group_data(&gid, NostrGroupDataUpdate::new().name(name)))
             }
             CommitKind::Describe => {
                 what = format!("describe d{arg}");
-                with_mdk!(self.clients[m].mdk, x => x.update_group_data(&gid, NostrGroupDataUpdate::new().description(format!("description {arg} \u{2603}"))))
+                let d = if arg % 13 == 0 { String::new() } else { format!("description {arg} \u{2603}") };
+                with_mdk!(self.clients[m].mdk, x => x.update_group_data(&gid, NostrGroupDataUpdate::new().description(d)))
             }
             CommitKind::Relays => {
                 let n = 1 + (arg % 3) as usize;
                 let relays: Vec<_> = (0..n).map(|i| relay((arg as usize + i) % 5)).collect();
                 what = format!("relays {:?}", relays.iter().map(|r| r.to_string()).collect::<Vec<_>>());
                 with_mdk!(self.clients[m].mdk, x => x.update_group_data(&gid, NostrGroupDataUpdate::new().relays(relays)))
+            }
+            CommitKind::RelaysNone => {
+                what = "relays []".to_string();
+                with_mdk!(self.clients[m].mdk, x => x.update_group_data(&gid, NostrGroupDataUpdate::new().relays(vec![])))
             }
             CommitKind::RotateNid => {
                 let nid: [u8; 32] = Rng::new(arg ^ 0x4e1d).bytes::<32>();
